@@ -44,8 +44,10 @@ void UncompressedFile::read(char * s, std::streamsize n) {
     if (n + m_tellg > m_fileSize) {
         n = m_fileSize - m_tellg;
         m_rdstate = std::ios_base::eofbit | std::ios_base::failbit;
-    } else
+    } else if (n > 0) {
+        /* a zero-length read must not clear the state of an earlier short read */
         m_rdstate = std::ios_base::goodbit;
+    }
 
     /* read data */
     m_gcount = 0;
